@@ -130,6 +130,8 @@ func copyTree(src, dst string) error {
 func runSelfTest(repo, property string) selfTestResult {
 	res := selfTestResult{}
 	muts := listMutants(property)
+	// generated variant: the whole tree with every unexported identifier renamed (names must not matter)
+	muts = append(muts, mutant{Name: "auto_rename_all_unexported", Property: property, Expect: "silent-own", Rule: "", What: "every unexported identifier of the module renamed", Path: "@rename"})
 	exe, err := os.Executable()
 	if err != nil {
 		res.Failed++
@@ -175,11 +177,19 @@ func runMutant(exe, repo string, m mutant) (status, detail string) {
 	if err := copyTree(repo, tmp); err != nil {
 		return "failed", "copy: " + err.Error()
 	}
-	diff, _ := os.ReadFile(m.Path)
-	cmd := exec.Command("patch", "-p1", "-s", "--no-backup-if-mismatch", "-d", tmp)
-	cmd.Stdin = bytes.NewReader(diff)
-	if out, err := cmd.CombinedOutput(); err != nil {
-		return "skipped", "diff does not apply to the current tree: " + strings.TrimSpace(string(out))
+	if m.Path == "@rename" {
+		rn := exec.Command(exe, "-repo", repo, "-rename-to", tmp)
+		rn.Env = append(os.Environ(), "VERIF_DIR="+verifDir())
+		if out, err := rn.CombinedOutput(); err != nil {
+			return "failed", "renaming failed: " + strings.TrimSpace(string(out))
+		}
+	} else {
+		diff, _ := os.ReadFile(m.Path)
+		cmd := exec.Command("patch", "-p1", "-s", "--no-backup-if-mismatch", "-d", tmp)
+		cmd.Stdin = bytes.NewReader(diff)
+		if out, err := cmd.CombinedOutput(); err != nil {
+			return "skipped", "diff does not apply to the current tree: " + strings.TrimSpace(string(out))
+		}
 	}
 	prop := m.Property
 	if m.Expect == "silent" {
@@ -216,7 +226,7 @@ func runMutant(exe, repo string, m mutant) (status, detail string) {
 			return "failed", "fired only other rules: " + strings.Join(fired, "; ")
 		}
 		return "failed", "no violation reported"
-	case "silent":
+	case "silent", "silent-own":
 		if len(fired) == 0 {
 			return "ok", "silent"
 		}
